@@ -252,6 +252,9 @@ def jobs(tier, seed):
     #     de-selected elements, hook errors) satisfy the relation bottom-up; R is validated on them
     from props.c01 import _shapes, flag_shards
     for name, (shapes, xo) in _shapes(tier).items():
+        if name == "stepless":
+            continue        # elements without children: the roll-up statement is vacuous for them (an unreached step-less
+                            # scenario reads "passed"), and the reachability precondition R does not model them
         for fname, fopts in flag_shards(tier):
             js.append(Job("c.run.%s%s" % (name, fname), "vlib.stage1:h_stage1",
                           {"shapes": shapes, "opts": dict(fopts, **xo), "checks": ["rollup"]},
